@@ -2,6 +2,7 @@
 C13 — facts about the listen-address parser model (Listen.lean).
 -/
 import CaddyModel.C13.Listen
+import CaddyModel.C18.Props
 
 namespace CaddyModel.C13
 
@@ -109,6 +110,13 @@ theorem parse_plain_host_port (h ds dflt : Bytes) (hh : ∀ b ∈ h, plainHostBy
   rw [cutAt_none slash _ hnoslash, splitHostPort_plain h ds hh hd]
   simp only [Option.map, if_true, h1, h2]
   simp [singlePort, hne, cutAt_none 45 ds hnodash, parsePort_digits ds hne hd hle]
+
+/-- on a listen string without braces the replacer step is the identity -/
+theorem parseAdminListenAddrP_no_braces (env : C18.Env) (addr dflt : Bytes)
+    (h1 : addr.contains C18.phOpen = false) (h2 : addr.contains C18.phClose = false) :
+    parseAdminListenAddrP env addr dflt = parseAdminListenAddr addr dflt := by
+  unfold parseAdminListenAddrP parseAdminListenAddr C18.replaceOrErr
+  rw [C18.no_braces_identity addr env _ h1 h2]
 
 theorem cutAt_unix_prefix (path : Bytes) : cutAt slash (sUnix ++ slash :: path) = some (sUnix, path) := by
   simp [cutAt, sUnix, slash]
